@@ -143,7 +143,8 @@ CLAIMED["C07"] = dict(
         "reference DP (harness/ops_ref.c) as end-to-end oracle with the proved margin, incl. a stream for the task-parallel controller (>= 500 columns, 2..16 threads).",
    note="Optimality is proved on the exact score carrier and, for the dyadic parameter sets (default protein, DNA, DNA-internal, divergent protein), on binary32 itself "
         "(Props/C07Soft: every SoftF32 kernel cell equals the exact cell, the tie term is bounded, C07Soft_alnRun_opt with the margin enlarged by 1/2 score unit; SoftF32 is tied "
-        "bit-for-bit to C float and to the pipeline). The RNA row (39.4 / 292.6) is not dyadic: there the binary32 instance is tied by correspondence and the certified oracle only. The profile-profile lift "
+        "bit-for-bit to C float and to the pipeline). Groups of identical copies on binary32: Props/C07SoftGroups (kernel equalities sp/pp = scaled seq-seq on SoftF32, C07Soft_doAlign_*_opt), nothing partial. "
+        "The RNA row (39.4 / 292.6) is not dyadic: there the binary32 instance is tied by correspondence and the certified oracle only. The profile-profile lift "
         "assumes a symmetric substitution matrix (proved for the protein table; checked for the others by decide). Known finding C07-terminal-gap-split (inconsistent "
         "terminal-gap objective; the proved margin quantifies it).",
    technique="Lean 4 proofs: DP kernel specifications, cut decomposition, per-level reading bounds, Hirschberg optimality under a margin; bit-exact Float32 model correspondence; "
@@ -156,7 +157,9 @@ CLAIMED["C08"] = dict(
         "theorems (Props/C08Opt: C08_identical_pair_diag for a pair, C08_identical_groups_diag / _seq_group_ / _group_seq_ for k vs m copies, both entry points; "
         "C08_identical_pair_diag_table instantiates it on a regenerated table row via a decidable per-sequence check). Search: all-identical inputs (IUPAC, all-N, all-X, "
         "homopolymers), 2..500 copies, lengths to 5000, all types, threads 1..16, both APIs.",
-   note="C08Soft_identical_pair_diag_protein / _dna: the same on binary32 (SoftF32) for the default protein and DNA-internal parameters. The C08Opt margin hypothesis fails for sequences containing the wildcard code 22 (self score -1) and for the DNA row with tgpe = 0: there the diagonal is only searched "
+   note="Direct proof (Props/C08Direct): by induction on the Hirschberg recursion for (seq, seq) the controller returns the diagonal for EVERY generated default row over every code that "
+        "can occur (C08_diagCondD_tables by decide +kernel: protein incl. X, divergent protein, RNA / nucleotide-undefined, DNA-internal, plain DNA with tgpe = 0), exact carrier, no length "
+        "bound, also for groups of copies; on binary32 (SoftF32, tied bit-for-bit to C float) for the dyadic rows with length bounds (C08DirectSoft, C08Soft_*). The older C08Opt margin hypothesis fails for sequences containing the wildcard code 22 (self score -1) and for the DNA row with tgpe = 0: there the diagonal is only searched "
         "end to end (all-N / all-X / IUPAC streams), not proved. Exact carrier (A-float). User penalties are outside the property.",
    technique="Lean 4 combinatorial inequality over regenerated matrices; end-to-end oracle",
    ref="4 C08")
